@@ -11,11 +11,13 @@ PKG = "./internal/router/"
 TEST = "TestVerifRateLimitReplay"
 HARNESS = [vf.kit("internal/router", "router"),
            ("ratelimit/replay_test.go", "internal/router/zz_verif_ratelimit_test.go"),
+           ("ratelimit/edge_test.go", "internal/router/zz_verif_ratelimit_edge_test.go"),
            # second front door (OAuth2 authorization-server login form), in-package there
            vf.kit("internal/server/oauth/authserver", "authserver"),
            ("ratelimit/doors_test.go", "internal/server/oauth/authserver/zz_verif_ratelimit_test.go")]
 PKG2 = "./internal/server/oauth/authserver/"
 TEST2 = "TestVerifRateLimitDoors"
+TEST3 = "TestVerifRateLimitEdge"
 
 
 def cover_paths(records):
@@ -106,6 +108,17 @@ def doors_key(m):
     return "doors/%s/%s/%s->%s/%s" % (m["act"], m["path"], m["want"], m["got"], var.get("Channel"))
 
 
+def edge_key(m):
+    held = ""
+    for x in m.get("prefix") or []:
+        if isinstance(x, dict) and "held_offset_ms" in x:
+            held = x["held_offset_ms"]
+    key = "edge/%s/%s" % (m["act"], vf.gen_path(m["path"]))
+    if m["path"] in ("reply", "verified"):
+        key += "/%s->%s" % (m["want"], m["got"])
+    return key + ("/deadline%+dms" % -int(held) if held else "")
+
+
 def account(chk, res, name, keyfn=None):
     keyfn = keyfn or mismatch_key
     for m in res.get("mismatches") or []:
@@ -123,6 +136,8 @@ def run():
     chk.assumptions += [
         "time is virtual: one tick = 5 min; the harness ages the stored instants (lastFailure, lockedUntil) instead of sleeping; "
         "the real 'now' is therefore always a few microseconds past a tick boundary (exact equality now == lockedUntil is not reachable)",
+        "millisecond instants (edge stage): the deadline of the real record is placed 999/500/1 ms ahead or 1/500 ms behind the step's instant; "
+        "a step whose measured delay to the code's clock read is not under half its margin is retried from a snapshot, then abandoned as inconclusive",
         "attempts are sequential (the statement quantifies over sequences); concurrent attempts on one name are not explored",
         "the background scan is driven explicitly (pruneLoginAttempts); its goroutine is parked by consuming its sync.Once in the harness "
         "(at the OAuth door, where that is not possible, a replay longer than 240 s is no verdict)",
@@ -139,12 +154,13 @@ def run():
         fbuild = pool.submit(vf.go_test_compile, ov, PKG, binary)
         binary2 = os.path.join(sd, "authserver.test")
         fbuild2 = pool.submit(vf.go_test_compile, ov, PKG2, binary2)
-        fdoors = pool.submit(vf.tlc, SPEC, "RateLimit_Cover", "RateLimit_CoverDoors.cfg", sd, timeout=600, workers=2)
+        fedge = pool.submit(vf.tlc, SPEC, "RateLimit_Edge", "RateLimit_Edge.cfg", sd, timeout=1500, workers=2)
+        fdoors = pool.submit(vf.tlc, SPEC, "RateLimit_Cover", "RateLimit_CoverDoors.cfg", sd, timeout=1500, workers=2)
         # 1. the design satisfies C24 (exhaustive at the stated bound)
         fmc = pool.submit(vf.tlc, SPEC, SPEC, "RateLimit_MC.cfg" if thorough else "RateLimit_MCq.cfg", sd, timeout=1500, workers=6 if thorough else 4)
         # 2. negative controls: the statement-level invariants must be able to see a limiter that forgets to clear / locks late
         negs = [("RateLimit_MC_noclear.cfg", "RefusedOnlyWhileLocked"), ("RateLimit_MC_latelock.cfg", "RefusedWhileLocked")]
-        fneg = [pool.submit(vf.tlc, SPEC, SPEC, cfg, sd, timeout=300, workers=1) for cfg, _ in negs]
+        fneg = [pool.submit(vf.tlc, SPEC, SPEC, cfg, sd, timeout=1200, workers=1) for cfg, _ in negs]
         # 3. transition covers of the model ; 4. simulated long histories (real defaults: limit 5, lockout 15 min; limits up to 6)
         covers = ["RateLimit_CoverQ.cfg", "RateLimit_CoverLock.cfg", "RateLimit_CoverDef.cfg"] + (["RateLimit_Cover.cfg", "RateLimit_CoverR.cfg"] if thorough else [])
         fcov = [pool.submit(vf.tlc, SPEC, "RateLimit_Cover", cfg, sd, timeout=1500, workers=4 if cfg in ("RateLimit_Cover.cfg", "RateLimit_CoverR.cfg") else 2) for cfg in covers]
@@ -181,6 +197,41 @@ def run():
         res2 = replay(binary, sd, behs, "sim", shards=8 if thorough else 4)
         account(chk, res2, "simulated")
         chk.sample({"kind": "simulated history (calls only)", "calls": [s["call"] for s in behs[0]][:30]})
+        # 4a. sub-tick instants around the deadline (clock unit 1 ms; lockouts of 900 ms, 1 s, 5 min); the same TLC run
+        #     checks the statement's invariants on these behaviours
+        re_ = vf.tlc_ok(fedge.result(), "RateLimit_Edge")
+        chk.add_tlc(re_, "MC + transition cover RateLimit_Edge.cfg (millisecond clock)")
+        enodes, epaths = cover_paths(re_.records)
+        if len(enodes) != re_.distinct:
+            raise vf.NoVerdict("edge cover: %d nodes printed but %d distinct states" % (len(enodes), re_.distinct))
+        rese = None
+        for attempt in range(3):          # a starved machine can make many margins overrun; that is never a verdict
+            rese = run_bin(binary, sd, epaths, "edge", vf.SEED, test=TEST3)
+            ex = rese.get("extra") or {}
+            if rese.get("mismatches") or ex.get("inconclusive", 0) * 10 <= len(epaths):
+                break
+        ex = rese.get("extra") or {}
+        chk.cov["edge"] = {"nodes": len(enodes), "paths": len(epaths), "attempts_with_deadline_held_at_offset_ms": ex.get("placed"),
+                           "steps_retried_after_overrunning_margin": ex.get("retried"), "behaviours_inconclusive": ex.get("inconclusive"),
+                           "worst_delay_us_in_a_conclusive_step": ex.get("worst_delay_us")}
+        resE = {"behaviours": rese["behaviours"], "steps": rese["steps"], "transitions": rese["transitions"],
+                "mismatches": rese.get("mismatches") or [], "act_counts": rese.get("act_counts") or {}, "variants": {}, "replies": {}}
+        account(chk, resE, "edge (millisecond instants around the deadline)", keyfn=edge_key)
+        if not resE["mismatches"]:
+            if ex.get("inconclusive", 0) * 10 > len(epaths):
+                raise vf.NoVerdict("edge replay: %s of %s behaviours inconclusive (steps kept overrunning their margins)" % (ex.get("inconclusive"), len(epaths)))
+            pl = ex.get("placed") or {}
+            if any(not pl.get(k) for k in ("-999", "-500", "-1", "1", "500")):
+                raise vf.NoVerdict("edge replay too weak: attempts per held offset %s" % pl)
+            ce = [p for p in epaths if any(s["call"]["act"] == "Attempt" and s["call"]["reply"] == "refused" and i > 0 and p[i - 1]["call"]["act"] == "AdvanceTo"
+                                           for i, s in enumerate(p))]
+            pb = copy.deepcopy(ce[len(ce) // 2])
+            i = [i for i, s in enumerate(pb) if s["call"]["act"] == "Attempt" and s["call"]["reply"] == "refused" and pb[i - 1]["call"]["act"] == "AdvanceTo"][0]
+            pb[i]["call"].update(reply="denied", verified=True, retry=0)
+            rs = run_bin(binary, sd, [pb], "edge-selftest", vf.SEED, test=TEST3)
+            if not rs.get("mismatches"):
+                raise vf.NoVerdict("edge binding self-test failed: perturbed reply at a held deadline not noticed")
+        chk.sample({"kind": "edge path (calls only)", "calls": [s["call"] for s in epaths[len(epaths) // 2]]})
         main_bad = bool(chk.cands)
         # 4b. the second front door: time-free cover, every attempt presented at the OAuth login form or at the native router
         rd = vf.tlc_ok(fdoors.result(), "cover doors")
@@ -211,7 +262,7 @@ def run():
         # vacuity guards: the replays really locked accounts, refused, cleared, pruned and reconfigured
         tot = {}
         for nm, rr in chk.cov["replay"].items():
-            if nm.startswith("doors"):
+            if nm.startswith("doors") or nm.startswith("edge"):
                 continue
             for fld in ("replies", "act_counts"):
                 for k, v in rr[fld].items():
